@@ -192,7 +192,7 @@ func (d *Descriptor) isValidJSONMapEntry() bool {
 func (d *Descriptor) readAsSlice(out Outputter, data []byte) (n int, err error) {
 	elt := &d.Elements[0]
 	switch elt.Type {
-	case FieldTypeFloat32, FieldTypeFloat64, FieldTypeInt, FieldTypeUint, FieldTypeBool:
+	case FieldTypeFloat32, FieldTypeFloat64, FieldTypeInt, FieldTypeFlatInt, FieldTypeUint, FieldTypeBool:
 		// If data is generated by protobuf this could be an element of a slice.
 		// We won't support that for now. So this is either a float64 or float32
 		offset := 0
